@@ -810,7 +810,7 @@ package go9p
 // guard obligations at the forwarding call.
 
 //@ pure connok(c) = c != nil && c.Srv != nil && c.fidpool != nil && c.reqs != nil && c.Msize >= 24 && c.Srv.Upool != nil && implements(c.Srv.ops, "SrvReqOps")
-//@ pure poolok(c) = forall k int :: inmap(c.fidpool, k) ==> c.fidpool[k] != nil && c.fidpool[k].Fconn == c && c.fidpool[k].fid == k
+//@ pure poolok(c) = forall k int :: inmap(c.fidpool, k) ==> c.fidpool[k] != nil && c.fidpool[k].Fconn == c && c.fidpool[k].fid == k && c.fidpool[k].refcount >= 1 && c.fidpool[k].refcount <= 4611686018427387904
 //@ pure reqwf(req) = req != nil && req.Tc != nil && req.Rc != nil && connok(req.Conn)
 //@ pure reqok(req) = req != nil && req.Tc != nil && req.Rc != nil && req.Conn != nil && req.Conn.Srv != nil && implements(req.Conn.Srv.ops, "SrvReqOps")
 //@ pure iohdr() = 24
@@ -1245,6 +1245,7 @@ package go9p
 //@     invariant 0 <= ret && ret <= len(old(buf)) && buf == old(buf)[ret:] && offset == old(offset) + ret
 //@     invariant file.Fid != nil && file.Fid.Clnt != nil
 
+// (anchor ordinals `#n` count the matching call sites in source order: for f(a, g(b)) the outer call is #1)
 // ---------------------------------------------------------------------------
 // Unix file server (ufs.go): C16 (mapping of metadata), C17 (mutations = POSIX calls), C18 (confinement)
 //
@@ -1338,8 +1339,8 @@ package go9p
 //@ func (*Ufs).Attach(ufs, req)
 //@   property C18 C06
 //@   requires ufs != nil && reqwf(req) && nolocks() && req.Fid != nil
-//@   at call(path/filepath.Join)#1 ensures rooted(ret)
-//@   at call(path/filepath.Join)#2 ensures rooted(before(arg0[1])) && before(arg0[0]) == ufs.Root ==> confined(ret)
+//@   at call(path/filepath.Join)#2 ensures rooted(ret)
+//@   at call(path/filepath.Join)#1 ensures rooted(before(arg0[1])) && before(arg0[0]) == ufs.Root ==> confined(ret)
 //@   at call((*ufsFid).stat) requires [confined] confined(arg0.path)
 //@   at call((*SrvReq).RespondRattach) requires [aux] ufsaux(req.Fid)
 
@@ -1398,6 +1399,7 @@ package go9p
 //@   requires ufsreq(req)
 //@   at call((*os.File).WriteAt) requires [args] arg1 == old(req.Tc.Data) && arg2 == wrap64s(old(req.Tc.Offset))
 
+//@ pure uflags(m) = ite(m & 3 == 1, os.O_WRONLY, ite(m & 3 == 2, os.O_RDWR, os.O_RDONLY)) + ite(m & 16 != 0, os.O_TRUNC, 0)
 //@ func (*Ufs).Create(ufs, req)
 //@   property C18 C17 C06
 //@   requires ufsreq(req)
@@ -1406,6 +1408,8 @@ package go9p
 //@   at call(os.Symlink) requires [confined] confined(arg1) && arg1 == cat(cat(old(upath(req)), "/"), old(req.Tc.Name)) && arg0 == old(req.Tc.Ext)
 //@   at call(os.Link) requires [confined] confined(arg0) && confined(arg1) && arg1 == cat(cat(old(upath(req)), "/"), old(req.Tc.Name))
 //@   at call(os.OpenFile) requires [confined] confined(arg0) && arg0 == cat(cat(old(upath(req)), "/"), old(req.Tc.Name))
+//@   at call(os.OpenFile)#1 requires [flags] arg1 == uflags(old(req.Tc.Mode)) + os.O_CREATE && old(req.Tc.Perm) & 2147483648 == 0
+//@   at call(os.OpenFile)#2 requires [flags] arg1 == uflags(req.Tc.Mode)
 //@   at call((*SrvReq).RespondRcreate) requires [moved] fid.path == cat(cat(old(upath(req)), "/"), old(req.Tc.Name)) && confined(fid.path)
 
 // directory snapshot kept in a ufsFid: ends are the running totals of the packed entries
@@ -1462,14 +1466,20 @@ package go9p
 //@   requires u != nil && ufsreq(req)
 //@   at call(os.Chmod) requires [args] confined(arg0) && arg0 == old(upath(req)) && old(req.Tc.Dir.Mode) != 4294967295
 //@   at call(os.Chown) requires [args] confined(arg0) && arg0 == old(upath(req))
-//@   at call(path/filepath.Join)#1 ensures rooted(ret)
-//@   at call(path/filepath.Join)#2 ensures rooted(before(arg0[1])) && before(arg0[0]) == u.Root ==> confined(ret)
+//@   at call(path/filepath.Join)#2 ensures rooted(ret)
+//@   at call(path/filepath.Join)#1 ensures rooted(before(arg0[1])) && before(arg0[0]) == u.Root ==> confined(ret)
 //@   at call(path.Split) ensures confined(arg0) ==> confined(ret0)
 //@   at call(path/filepath.Join)#3 ensures confined(before(arg0[0])) && plain(before(arg0[1])) ==> confined(ret)
+//@   ghost renamed bool = false
+//@   ghost dest int = 0
 //@   at call(syscall.Rename) requires [args] arg0 == old(upath(req)) && confined(arg0) && confined(arg1)
+//@   at call(syscall.Rename) after renamed := ret == nil
+//@   at call(syscall.Rename) after dest := arg1
 //@   at call(os.Truncate) requires [args] confined(arg0) && old(req.Tc.Dir.Length) != 18446744073709551615 && arg1 == wrap64s(old(req.Tc.Dir.Length))
-//@   at call(os.Stat) requires [confined] confined(arg0)
-//@   at call(os.Chtimes) requires [args] confined(arg0)
+//@   at call(os.Truncate) requires [target] arg0 == ite(renamed, dest, old(upath(req)))
+//@   at call(os.Stat) requires [confined] confined(arg0) && arg0 == ite(renamed, dest, old(upath(req)))
+//@   at call(os.Chtimes) requires [args] confined(arg0) && arg0 == ite(renamed, dest, old(upath(req)))
+//@   at call((*SrvReq).RespondRwstat) requires [moved] renamed ==> fid.path == dest
 //@   at call(os.Stat) ensures ret1 == nil ==> ret0 != nil
 
 // ---------------------------------------------------------------------------
